@@ -38,6 +38,7 @@ DecQuals(items, q) ==
 \* T::from_str on the (already validated) type substring
 ShapeConv(shape, t) ==
    IF shape.kind = "generic" THEN [ok |-> TRUE, st |-> t]
+   ELSE IF shape.kind = "test" THEN (IF shape.conv THEN [ok |-> TRUE, st |-> t] ELSE Err("ConvError"))
    ELSE LET r == Lookup(t) IN IF r.ok THEN [ok |-> TRUE, st |-> r.t] ELSE Err("UnsupportedType")
 
 ParseF(s, shape, tab) ==
